@@ -51,6 +51,15 @@ platform / webpki stores only if asked for (and compiled in). Nothing else. -/
 def configuredRoots (sys : Sys Root) (ops : List (ClientOp Root Chain)) : List Root :=
   ops.flatMap (rootsOfOp sys)
 
+/-- "the caller asked for the platform's trusted certificates" (directly or through
+`with_enabled_roots`). -/
+def asksNativeOp : ClientOp Root Chain → Bool
+  | .withNativeRoots => true
+  | .withEnabledRoots => true
+  | _ => false
+
+def asksNative (ops : List (ClientOp Root Chain)) : Bool := ops.any asksNativeOp
+
 def assumeOfOp : ClientOp Root Chain → Option Bool
   | .assumeHttp2 b => some b
   | _ => none
